@@ -249,6 +249,21 @@ def _tables() -> dict:
             _is_expr(T.find_function(m_, q), want)
         except T.Unsupported as e:
             out["errors"].append(str(e))
+    # byte order: the model has no byte-order dimension because (a) from_numpy looks the dtype up as given, so an
+    # array of the non-native order is rejected, and (b) the byte builder ends with the big-endian-machine swap only
+    try:
+        fn = T.find_function(mod, "DataType.from_numpy")
+        body = [s_ for s_ in fn.body if not (isinstance(s_, ast.Expr) and isinstance(s_.value, ast.Constant))]
+        if ast.unparse(body[0]) != "if dtype in _NP_TYPE_TO_DATA_TYPE:\n    return cls(_NP_TYPE_TO_DATA_TYPE[dtype])":
+            out["errors"].append("from_numpy: does not start with the plain table lookup: " + ast.unparse(body[0])[:120])
+        fn = T.find_function(core, "_create_np_array_for_byte_representation")
+        tail = "\n".join(ast.unparse(s_) for s_ in fn.body[-2:])
+        if tail != "if not _IS_LITTLE_ENDIAN:\n    array = array.astype(array.dtype.newbyteorder('<'))\nreturn array":
+            out["errors"].append("_create_np_array_for_byte_representation: unexpected byte-order tail: " + tail[:160])
+        if ast.unparse(T.find_assign(core, "_IS_LITTLE_ENDIAN")) != "sys.byteorder == 'little'":
+            out["errors"].append("_IS_LITTLE_ENDIAN is not `sys.byteorder == 'little'`")
+    except (T.Unsupported, IndexError) as e:
+        out["errors"].append(f"byte-order shape check: {e}")
     e = T.find_assign(core, "_NON_NUMPY_NATIVE_TYPES")
     if not (isinstance(e, ast.Call) and isinstance(e.func, ast.Name) and e.func.id == "frozenset" and len(e.args) == 1
             and isinstance(e.args[0], (ast.Tuple, ast.List, ast.Set))):
@@ -281,7 +296,7 @@ def gen_text() -> str:
         raise T.Unsupported("; ".join(t["errors"]))
     nl = lambda xs: "[" + "; ".join(f"{x}%N" for x in xs) + "]"  # noqa: E731
     L = ["(* GENERATED by /verif/harness/props/c04.py (ast of _enums.py, _core.py, serde.py) on every run — do not edit. *)",
-         "From Coq Require Import NArith List.", "Import ListNotations.", "Open Scope N_scope.", ""]
+         "From Coq Require Import NArith List Arith.", "From IRV Require Import C04.Np.", "Import ListNotations.", "Open Scope N_scope.", ""]
     L.append("(* _enums.py::DataType members (name as code points, value) *)")
     L.append("Definition dt_members : list (list N * N) :=\n  ["
              + ";\n   ".join(f"({_codes(n)}, {v}%N) (* {n} *)" for n, v in t["members"]) + "].")
@@ -311,7 +326,208 @@ def gen_text() -> str:
                      ("pb_16", "serde.TensorProtoTensor.tobytes: int32_data narrowed to uint16"),
                      ("pb_8", "serde.TensorProtoTensor.tobytes: int32_data narrowed to uint8")]:
         L.append(f"\n(* {doc} *)\nDefinition set_{key} : list N := {nl(t[key])}.")
+    L.append("\n(* ---- _type_casting.py, statement by statement over C04/Np.v (`dims` is represented by n = prod dims) *)")
+    L.append(type_casting_text())
     return "\n".join(L) + "\n"
+
+
+# --------------------------------------------------------------------------- _type_casting.py -> Gallina (fail closed)
+
+TYPE_CASTING = os.path.join(REPO, "src", "onnx_ir", "_type_casting.py")
+
+
+class _TC:
+    """Statement-by-statement translation of one pack/unpack function into Gallina over C04/Np.v.
+
+    Array variables are `list N` (flat uint8 storage), integer variables are `nat`; `dims` is represented by its
+    element count `n` (np.prod(dims)).  Anything outside the vocabulary below raises translate.Unsupported."""
+
+    def __init__(self, fn: ast.FunctionDef):
+        self.fn = fn
+        self.arrays: set[str] = set()
+        self.nats: set[str] = set()
+        self.bools: set[str] = set()
+        self.lines: list[str] = []
+
+    def bad(self, node, why=""):
+        raise T.Unsupported(f"{self.fn.name}: unsupported {why}: `{ast.unparse(node)}`")
+
+    # ---- constants
+    def const(self, e) -> int:
+        if isinstance(e, ast.Constant) and isinstance(e.value, int) and not isinstance(e.value, bool):
+            return e.value
+        if (isinstance(e, ast.Call) and ast.unparse(e.func) == "np.uint8" and len(e.args) == 1 and not e.keywords):
+            v = self.const(e.args[0])
+            if 0 <= v < 256:
+                return v
+        self.bad(e, "constant")
+
+    # ---- nat expressions
+    def nat(self, e) -> str:
+        if isinstance(e, ast.Constant):
+            return f"{self.const(e)}%nat"
+        if isinstance(e, ast.Name) and e.id in self.nats:
+            return e.id
+        if isinstance(e, ast.Attribute) and e.attr == "size" and isinstance(e.value, ast.Name) and e.value.id in self.arrays:
+            return f"(np_size {e.value.id})"
+        u = ast.unparse(e)
+        if u in ("np.prod(dims)", "int(np.prod(dims))"):
+            return "n"
+        if isinstance(e, ast.BinOp):
+            if isinstance(e.op, ast.Add):
+                return f"({self.nat(e.left)} + {self.nat(e.right)})%nat"
+            if isinstance(e.op, ast.Mult):
+                return f"({self.nat(e.left)} * {self.nat(e.right)})%nat"
+            if isinstance(e.op, ast.Mod) and isinstance(e.right, ast.Constant) and self.const(e.right) > 0:
+                return f"({self.nat(e.left)} mod {self.const(e.right)})%nat"
+            if (isinstance(e.op, ast.Sub) and isinstance(e.left, ast.Constant) and isinstance(e.right, ast.BinOp)
+                    and isinstance(e.right.op, ast.Mod) and isinstance(e.right.right, ast.Constant)
+                    and 0 < self.const(e.right.right) <= self.const(e.left)):
+                # c - (x % k) with k <= c: never negative, so nat subtraction is the Python subtraction
+                return f"({self.const(e.left)} - {self.nat(e.right)})%nat"
+        self.bad(e, "integer expression")
+
+    def boolean(self, e) -> str:
+        if isinstance(e, ast.Name) and e.id in self.bools:
+            return e.id
+        if isinstance(e, ast.Compare) and len(e.ops) == 1:
+            a, b = self.nat(e.left), self.nat(e.comparators[0])
+            if isinstance(e.ops[0], ast.Eq):
+                return f"(Nat.eqb {a} {b})"
+            if isinstance(e.ops[0], ast.Gt):
+                return f"(Nat.ltb {b} {a})"
+        self.bad(e, "condition")
+
+    # ---- slices
+    def stride(self, sl):
+        """a[start::step] -> (start, step)"""
+        if (isinstance(sl, ast.Slice) and sl.upper is None and sl.lower is not None and sl.step is not None):
+            st, sp = self.const(sl.lower), self.const(sl.step)
+            if 0 <= st < sp:
+                return st, sp
+        self.bad(sl, "slice")
+
+    # ---- array expressions
+    def arr(self, e) -> str:
+        if isinstance(e, ast.Name) and e.id in self.arrays:
+            return e.id
+        u = ast.unparse(e)
+        if u == "array.ravel().view(np.uint8).copy()":
+            return "array"                     # the model's input already is the flat uint8 storage (a copy)
+        if isinstance(e, ast.BinOp):
+            if isinstance(e.op, ast.BitAnd):
+                return f"(np_and_s {self.arr(e.left)} {self.const(e.right)})"
+            if isinstance(e.op, ast.RShift):
+                return f"(np_shr_s {self.arr(e.left)} {self.const(e.right)})"
+            if isinstance(e.op, ast.BitOr):
+                return f"(np_or {self.arr(e.left)} {self.arr(e.right)})"
+        if isinstance(e, ast.Subscript) and isinstance(e.value, ast.Name) and e.value.id in self.arrays:
+            sl = e.slice
+            if isinstance(sl, ast.Slice) and sl.lower is None and sl.step is None and sl.upper is not None:
+                if ast.unparse(sl.upper) == "-1":
+                    return f"(np_drop_last {e.value.id})"
+                return f"(np_take {e.value.id} {self.nat(sl.upper)})"
+            st, sp = self.stride(sl)
+            return f"(np_stride {e.value.id} {st} {sp})"
+        if (isinstance(e, ast.Call) and ast.unparse(e.func) == "np.empty" and len(e.args) == 1
+                and isinstance(e.args[0], ast.List) and len(e.args[0].elts) == 1
+                and [ast.unparse(k) for k in e.keywords] == ["dtype=data.dtype"]):
+            return f"(np_empty {self.nat(e.args[0].elts[0])})"
+        self.bad(e, "array expression")
+
+    # ---- statements
+    def resize_call(self, st):
+        """x.resize(dims | [expr], refcheck=False) -> (x, new size)"""
+        if (isinstance(st, ast.Expr) and isinstance(st.value, ast.Call) and isinstance(st.value.func, ast.Attribute)
+                and st.value.func.attr == "resize" and isinstance(st.value.func.value, ast.Name)
+                and st.value.func.value.id in self.arrays and len(st.value.args) == 1
+                and [ast.unparse(k) for k in st.value.keywords] == ["refcheck=False"]):
+            a = st.value.args[0]
+            if isinstance(a, ast.Name) and a.id == "dims":
+                return st.value.func.value.id, "n"
+            if isinstance(a, ast.List) and len(a.elts) == 1:
+                return st.value.func.value.id, self.nat(a.elts[0])
+        return None
+
+    def simple(self, st) -> tuple[str, str]:
+        """a statement that rebinds exactly one variable -> (variable, Gallina term)"""
+        r = self.resize_call(st)
+        if r:
+            return r[0], f"(np_resize {r[0]} {r[1]})"
+        if isinstance(st, ast.Assign) and len(st.targets) == 1:
+            tg = st.targets[0]
+            if isinstance(tg, ast.Name):
+                # decide the type from the right-hand side
+                for kind, f in (("arr", self.arr), ("nat", self.nat), ("bool", self.boolean)):
+                    try:
+                        text = f(st.value)
+                    except T.Unsupported:
+                        continue
+                    {"arr": self.arrays, "nat": self.nats, "bool": self.bools}[kind].add(tg.id)
+                    return tg.id, text
+                self.bad(st, "assignment")
+            if isinstance(tg, ast.Subscript) and isinstance(tg.value, ast.Name) and tg.value.id in self.arrays:
+                a, b = self.stride(tg.slice)
+                return tg.value.id, f"(np_set_stride {tg.value.id} {a} {b} {self.arr(st.value)})"
+        if isinstance(st, ast.AugAssign):
+            c = self.const(st.value)
+            f = {ast.BitAnd: f"(fun x => N.land x {c})", ast.LShift: f"(fun x => np_u8 (N.shiftl x {c}))",
+                 ast.RShift: f"(fun x => N.shiftr x {c})"}.get(type(st.op))
+            if f is None:
+                self.bad(st, "augmented assignment")
+            if isinstance(st.target, ast.Name) and st.target.id in self.arrays:
+                return st.target.id, f"(map {f} {st.target.id})"
+            if (isinstance(st.target, ast.Subscript) and isinstance(st.target.value, ast.Name)
+                    and st.target.value.id in self.arrays):
+                a, b = self.stride(st.target.slice)
+                return st.target.value.id, f"(np_upd_stride {f} {st.target.value.id} {a} {b})"
+        self.bad(st, "statement")
+
+    def translate(self, coq_name: str, params: str) -> str:
+        body = [s for s in self.fn.body if not (isinstance(s, ast.Expr) and isinstance(s.value, ast.Constant))]
+        args = [a.arg for a in self.fn.args.args]
+        if args == ["array"]:
+            self.arrays.add("array")
+        elif args == ["data", "dims"]:
+            self.arrays.add("data")
+        else:
+            raise T.Unsupported(f"{self.fn.name}: unexpected parameters {args}")
+        out = []
+        ret = None
+        for st in body:
+            if ret is not None:
+                self.bad(st, "statement after return")
+            if isinstance(st, ast.Assert):
+                if ast.unparse(st.test) != "data.dtype == np.uint8":
+                    self.bad(st, "assert")
+                continue
+            if isinstance(st, ast.Return):
+                ret = self.arr(st.value)
+                continue
+            if isinstance(st, ast.If):
+                if st.orelse or len(st.body) != 1:
+                    self.bad(st, "if")
+                c = self.boolean(st.test)
+                v, text = self.simple(st.body[0])
+                if v not in self.arrays:
+                    self.bad(st, "if body")
+                out.append(f"  let {v} := if {c} then {text} else {v} in")
+                continue
+            v, text = self.simple(st)
+            out.append(f"  let {v} := {text} in")
+        if ret is None:
+            raise T.Unsupported(f"{self.fn.name}: no return")
+        return (f"(* translated from _type_casting.py::{self.fn.name}  ast={T.ast_digest(self.fn)} *)\n"
+                f"Definition {coq_name} {params} : list N :=\n" + "\n".join(out) + f"\n  {ret}.\n")
+
+
+def type_casting_text() -> str:
+    mod = T._src(TYPE_CASTING)
+    out = []
+    for name, params in (("pack_4bitx2", "(array : list N)"), ("unpack_4bitx2", "(data : list N) (n : nat)"),
+                         ("pack_2bitx4", "(array : list N)"), ("unpack_2bitx4", "(data : list N) (n : nat)")):
+        out.append(_TC(T.find_function(mod, name)).translate("tc_" + name, params))
+    return "\n".join(out)
 
 
 def generate(ck) -> bool:
@@ -1040,8 +1256,8 @@ def rep_variants(name: str) -> list[tuple[str, dict]]:
     ps = proto_sets()
     t = tables()
     non_native = {n for n, v in t["members"] if v in t["non_native"]}
-    out = [("array", {"variant": "ml"}), ("array", {"variant": "ml_dtype"}), ("array", {"variant": "fortran"}),
-           ("array", {"variant": "strided"}), ("array", {"variant": "ir.tensor"}),
+    out = [("array", {"variant": "ml"}), ("array", {"variant": "ml_dtype", "light": True}), ("array", {"variant": "fortran", "light": True}),
+           ("array", {"variant": "strided", "light": True}), ("array", {"variant": "ir.tensor", "light": True}),
            ("array", {"variant": "offset_view", "light": True}), ("array", {"variant": "offset_strided", "light": True})]
     if name in non_native:
         out.append(("array", {"variant": "uint"}))
@@ -1051,10 +1267,10 @@ def rep_variants(name: str) -> list[tuple[str, dict]]:
         out.append(("packed", {}))
         out.append(("packed", {"view": True, "light": True}))
     out.append(("proto", {"field": "raw"}))
-    out.append(("proto", {"field": "raw", "via": "ir.tensor"}))
+    out.append(("proto", {"field": "raw", "via": "ir.tensor", "light": True}))
     out.append(("proto", {"field": "helper"}))
     if name in ps["pn_int32"]:
-        out += [("proto", {"field": "int32", "ext": "zero"}), ("proto", {"field": "int32", "ext": "sign"})]
+        out += [("proto", {"field": "int32", "ext": "zero", "light": True}), ("proto", {"field": "int32", "ext": "sign"})]
         if bw < 32:
             out.append(("proto", {"field": "int32", "ext": "high"}))
     if name in ps["pn_int64"]:
@@ -1071,12 +1287,12 @@ def rep_variants(name: str) -> list[tuple[str, dict]]:
             ("external", {"pre": 0, "post": 0, "length": "nbytes"}),
             ("external", {"pre": 5, "post": 0}),                       # data ends exactly at end of file
             ("external", {"pre": 3, "post": 4, "length": "nbytes", "via": "proto"}),
-            ("external", {"pre": 600, "post": 1})]
+            ("external", {"pre": 600, "post": 1, "light": True})]
     try:
         from onnx_ir import tensor_adapters
         tensor_adapters.to_torch_dtype(ir.DataType[name])
         if bw >= 8:
-            out += [("torch", {}), ("torch", {"variant": "ir.tensor"}), ("torch", {"variant": "noncontig"}),
+            out += [("torch", {}), ("torch", {"variant": "ir.tensor", "light": True}), ("torch", {"variant": "noncontig", "light": True}),
                     ("torch", {"variant": "view_tail", "k": 3, "light": True}), ("torch", {"variant": "view_narrow", "k": 5, "light": True}),
                     ("torch", {"variant": "view_row", "k": 2, "light": True}), ("torch", {"variant": "view_split", "k": 4, "light": True}),
                     ("torch", {"variant": "view_strided", "light": True}), ("torch", {"variant": "view_t_offset", "k": 1, "light": True})]
@@ -1087,7 +1303,7 @@ def rep_variants(name: str) -> list[tuple[str, dict]]:
             ("lazy", {"inner": {"rep": "proto", "params": {"field": "raw"}}, "cache": False}),
             ("lazy", {"inner": {"rep": "external", "params": {"pre": 4097, "post": 0}}, "cache": False, "light": True}),
             ("serialized", {"inner": {"rep": "array", "params": {"variant": "ml"}}}),
-            ("serialized", {"inner": {"rep": "external", "params": {"pre": 1, "post": 1}}}) ]
+            ("serialized", {"inner": {"rep": "external", "params": {"pre": 1, "post": 1}}, "light": True})]
     if bw < 8:
         out += [("lazy", {"inner": {"rep": "packed", "params": {}}, "cache": True}),
                 ("serialized", {"inner": {"rep": "packed", "params": {}}})]
@@ -1645,6 +1861,100 @@ def tables_runtime_check(ck) -> None:
                 return
 
 
+def type_casting_stream(ck) -> None:
+    """The four functions of _type_casting.py called directly (valid sizes, mismatching dims, scalar dims, empty,
+    int8 / multi-dimensional / Fortran inputs) against their translations, evaluated in Coq."""
+    import numpy as np
+    from onnx_ir import _type_casting as tc
+    rng = ck.rng
+    rows, meta = [], []
+    reps = 220 if not ck.thorough else 3000
+    for i in range(reps):
+        k = i % 4
+        per = 2 if k < 2 else 4
+        if k in (0, 2):          # pack
+            n = rng.choice([0, 1, 2, 3, 4, 5, 7, 8, 9, 16, 21])
+            vals = [rng.randrange(256) for _ in range(n)]
+            a = np.array(vals, dtype=np.uint8)
+            form = rng.choice(["flat", "int8", "2d", "fortran", "strided"])
+            if form == "int8":
+                a = a.view(np.int8)
+            elif form in ("2d", "fortran") and n % 2 == 0 and n:
+                a = a.reshape(2, n // 2)
+                if form == "fortran":      # ravel() is C order: the logical order, whatever the memory layout
+                    a = np.asfortranarray(a)
+            elif form == "strided":
+                big = np.zeros(2 * n + 1, dtype=np.uint8)
+                big[1::2][:n] = vals
+                a = big[1::2][:n]
+            out = (tc.pack_4bitx2 if k == 0 else tc.pack_2bitx4)(a)
+            rows.append((k, vals, 0, [int(x) for x in out.reshape(-1)]))
+            meta.append({"fn": "pack", "per": per, "n": n, "form": form})
+            ck.hist("type_casting", f"pack_{per}:{form}")
+        else:                    # unpack
+            m = rng.choice([0, 1, 2, 3, 5, 8])
+            data = [rng.randrange(256) for _ in range(m)]
+            full = m * per
+            kind = rng.choice(["exact", "minus1", "minus_more", "plus1", "bigger", "zero", "scalar", "2d"])
+            dims = {"exact": [full], "minus1": [max(full - 1, 0)], "minus_more": [max(full - rng.randrange(2, 5), 0)],
+                    "plus1": [full + 1], "bigger": [full * 2 + 3], "zero": [0], "scalar": [],
+                    "2d": [2, full // 2] if full else [0, 3]}[kind]
+            try:
+                out = (tc.unpack_4bitx2 if k == 1 else tc.unpack_2bitx4)(np.array(data, dtype=np.uint8), dims)
+            except Exception as e:  # noqa: BLE001
+                ck.broken("correspondence:type_casting", f"unpack raised {type(e).__name__}: {e} for data={data} dims={dims}")
+                continue
+            n = int(np.prod(dims))
+            if list(out.shape) != list(dims):
+                ck.broken("correspondence:type_casting", f"unpack returned shape {out.shape} for dims {dims}")
+            rows.append((k, data, n, [int(x) for x in out.reshape(-1)]))
+            meta.append({"fn": "unpack", "per": per, "data": data, "dims": dims})
+            ck.hist("type_casting", f"unpack_{per}:{kind}")
+        ck.count()
+    nl = lambda v: clist(cN(x) for x in v)  # noqa: E731
+    text = CASE_HEADER + "Definition rows : list (N * list N * N * list N) :=\n  " + clist(
+        f"({k}, {nl(d)}, {n}, {nl(o)})" for k, d, n, o in rows).replace("; (", ";\n  (") + \
+        ".\nEval vm_compute in (failing tc_agree rows).\n"
+    try:
+        for i in ck.coq_failing(text, "type_casting")[:5]:
+            ck.broken("correspondence:type_casting", json.dumps({"case": meta[i], "input": rows[i][1], "n": rows[i][2], "impl": rows[i][3]}))
+    except RuntimeError as e:
+        ck.broken("correspondence:case-file-type_casting", str(e))
+
+
+def nbytes_stream(ck) -> None:
+    """nbytes / size of declared shapes far beyond anything materialisable (LazyTensor never calls its function):
+    the model includes the float arithmetic of the code (rne53), so sizes above 2^53 are predicted too."""
+    import onnx_ir as ir
+    rng = ck.rng
+    rows = []
+    for name in NUMERIC():
+        sizes = [0, 1, 7, (1 << 31) + 1, (1 << 53) - 1, 1 << 53, (1 << 53) + 1, (1 << 53) + 2, (1 << 53) + 3, (1 << 54) + 2,
+                 (1 << 54) + 6, (1 << 60) + (1 << 7), (1 << 60) + (1 << 7) + 1, 3 * (1 << 62) + 12345]
+        sizes += [rng.getrandbits(rng.randrange(50, 90)) for _ in range(6 if not ck.thorough else 60)]
+        for size in sizes:
+            shape = [size] if rng.random() < 0.6 else rng.choice([[1, size], [size, 1, 1], [2, (size + 1) // 2], [3, 5, size // 15 + 1]])
+            lt = ir.LazyTensor(lambda: None, dtype=ir.DataType[name], shape=ir.Shape(shape))
+            total = 1
+            for d in shape:
+                total *= d
+            if lt.size != total:
+                ck.violation({"kind": "oracle-size", "dtype": name, "shape": shape, "size": lt.size, "required": total})
+            rows.append((int(ir.DataType[name]), shape, lt.nbytes))
+            ck.count()
+            ck.hist("nbytes_stream", "size<2^53" if total < (1 << 53) else "size>=2^53")
+            if total >= 1 << 53:
+                ck.nontriv(("nbytes", name, shape))
+    text = CASE_HEADER + "Definition rows : list (N * list N * N) :=\n  " + clist(
+        f"({d}, {clist(cN(x) for x in sh)}, {cN(nb)})" for d, sh, nb in rows).replace("; (", ";\n  (") + \
+        ".\nEval vm_compute in (failing nb_agree rows).\n"
+    try:
+        for i in ck.coq_failing(text, "nbytes")[:5]:
+            ck.broken("correspondence:nbytes_code", json.dumps({"dtype": rows[i][0], "shape": rows[i][1], "impl_nbytes": rows[i][2]}))
+    except RuntimeError as e:
+        ck.broken("correspondence:case-file-nbytes", str(e))
+
+
 def run(ck) -> None:
     import logging
     import shutil
@@ -1672,6 +1982,8 @@ def run(ck) -> None:
         ck.broken("build:C04/Tie.v", out[-2000:])
     env_contract_subbyte(ck)
     tables_runtime_check(ck)
+    type_casting_stream(ck)
+    nbytes_stream(ck)
     wd = os.path.join(ck.scratch, "w")
     os.makedirs(wd, exist_ok=True)
 
@@ -1755,6 +2067,15 @@ def run(ck) -> None:
         if k.get("status") != "known":
             continue
         w = k["witness"]
+        if k["key"] == "nbytes-float-rounding":
+            import onnx_ir as ir
+            lt = ir.LazyTensor(lambda: None, dtype=ir.DataType[w["dtype"]], shape=ir.Shape([w["size"]]))
+            if lt.nbytes != ref_nbytes(w["dtype"], w["size"]):
+                ck.known_finding(k["key"], k["what"])
+            else:
+                ck.broken(f"known-finding-stale:{k['key']}", "nbytes is exact for the recorded witness; C04_nbytes_float_refuted "
+                          "describes float arithmetic the code no longer uses")
+            continue
         if k["key"] == "string-trailing-nul":
             ss = [bytes.fromhex(x) for x in w["strings_hex"]]
             o = observe_string(w["kind"], w["shape"], ss)
